@@ -1911,7 +1911,12 @@ fn judge_rawpkh(out: &mut Out, spec: &Spec, rng: &mut Rng) {
             .into_iter().chain(q.inputs[0].final_script_sig.as_ref().map(|s| s.to_bytes()).unwrap_or_default()).collect::<Vec<u8>>());
         let bad = match &reference {
             None => { reference = Some(fin.clone()); None }
-            Some(rf) => if rf.0 == "ok" && *rf != fin { Some(format!("differs-from-with-origins:{}", r)) } else { None },
+            // without origins the key behind a raw key hash is only known through a signature, so a
+            // DIFFERENT valid spend may be chosen (e.g. or_b(pk(K7),a:pkh(K0)): the dissatisfaction
+            // of pkh(K0) needs the key; with a raw hash the satisfier takes the other branch).  The
+            // statement claims validity of what is produced (judged below), not equal bytes.
+            Some(rf) => if rf.0 == "ok" && r != "ok" { Some(format!("differs-from-with-origins:{}", r)) }
+                else { if rf.0 == "ok" && *rf != fin { out.count("observation: raw-pkh route finalizes to a different valid spend than with origins"); } None },
         };
         out.count(&format!("rawpkh {} {}", name, r.split('@').next().unwrap()));
         let id = format!("{} {}", spec.tmpl, name);
